@@ -103,6 +103,8 @@ pub fn specs(tier: &str) -> Vec<ExpSpec> {
     for ft in [FatType::Fat12, FatType::Fat16, FatType::Fat32] {
         v.push(ExpSpec::new(vol::tiny_low(ft, 2, 16), alphabet(512), if th { 5 } else { 3 }));
     }
+    // FAT32 cluster numbers above 0xFFFF (directories and moved entries start there)
+    v.push(ExpSpec::new(vol::t32_high(), alphabet(512), if th { 3 } else { 2 }));
     // geometry grid (sector 512..4096 x cluster 1..128 sectors x FAT12/16/32 x 1-2 FATs x small/large root), depth 2
     for c in crate::c03::grid(th) {
         let cs = {
